@@ -13,7 +13,8 @@ from checks import common as c
 
 SPACE = {
     'graph': ['P2', 'P3', 'TRI'],
-    'chain': ['F80', 'F80_E_F60', 'F40_U_F30', 'RF80', 'F200', 'E_F100_E', 'F0.5'],
+    'chain': ['F80', 'F80_E_F60', 'F40_U_F30', 'RF80', 'F200', 'E_F100_E', 'F0.5', 'Fneg70', 'Fnz90_E_Fneg40'],
+    'roadm': ['library', 'detailed_xt'],
     'eq': ['test', 'example', 'openroadm5'],
     'sim': ['default', 'raman_gn', 'raman_ggn_approx3', 'ggn_sep', 'ggn_approx_all', 'raman_numerical'],
     'mode': ['power', 'gain'],
@@ -66,6 +67,10 @@ def chain(kind, eqname, k):
         return [c.edfa(user, out_voa=1.0), c.fiber(100, att_in=1.0), c.edfa(user2, tilt_target=-1.0)]
     if kind == 'F0.5':
         return [c.fiber(0.5)]
+    if kind == 'Fneg70':
+        return [c.fiber(70, variety='NEG')]
+    if kind == 'Fnz90_E_Fneg40':
+        return [c.fiber(90, variety='NZ'), c.edfa(), c.fiber(40, variety='NEG')]
     raise ValueError(kind)
 
 
@@ -73,6 +78,8 @@ def library(case):
     eq = c.eqpt_json(EQ_FILES[case['eq']])
     if 'RamanFiber' not in eq:
         eq['RamanFiber'] = [dict(next(f for f in eq['Fiber'] if f['type_variety'] == 'SSMF'))]
+    eq['Fiber'].append({'type_variety': 'NEG', 'dispersion': -0.4e-05, 'effective_area': 55e-12, 'pmd_coef': 2.5e-15})
+    eq['Fiber'].append({'type_variety': 'NZ', 'dispersion': 0.45e-05, 'effective_area': 72e-12, 'pmd_coef': 2.5e-15})
     eq['Span'][0]['power_mode'] = case['mode'] == 'power'
     # ROADM policy: replace the equalisation key of every ROADM entry by the equivalent target
     for r in eq['Roadm']:
@@ -87,6 +94,15 @@ def library(case):
             r['target_psd_out_mWperGHz'] = 10 ** (dbm / 10) / 32.0
         else:
             r['target_out_mWperSlotWidth'] = 10 ** (dbm / 10) / 50.0
+        if case.get('roadm') == 'detailed_xt':
+            # detailed impairment profiles with every documented field filled in (crosstalk, noise figure, pmax ...)
+            rng = {'lower-frequency': 186e12, 'upper-frequency': 200e12}
+            full = {'roadm-pmd': 1e-12, 'roadm-cd': 0, 'roadm-pdl': 0.5, 'roadm-inband-crosstalk': -30, 'roadm-maxloss': 4,
+                    'roadm-pmax': 2.5, 'roadm-osnr': 41, 'roadm-noise-figure': 23}
+            r['roadm-path-impairments'] = [
+                {'roadm-path-impairments-id': 0, 'roadm-express-path': [dict(full, **{'frequency-range': rng})]},
+                {'roadm-path-impairments-id': 1, 'roadm-add-path': [dict(full, **{'frequency-range': rng})]},
+                {'roadm-path-impairments-id': 2, 'roadm-drop-path': [dict(full, **{'frequency-range': rng})]}]
     return eq
 
 
